@@ -141,10 +141,19 @@ def gen():
     print(Counter(m["kind"] for m in out))
 
 
+MASTER = "/tmp/pgv-mo-master"
+
+
+def _master():
+    if not os.path.exists(MASTER):
+        os.makedirs(MASTER)
+        subprocess.run(f"git -C /repo archive HEAD | tar -x -C {MASTER}", shell=True, check=True)
+    return MASTER
+
+
 def _worker_dir(i):
     d = f"/tmp/pgv-mo-{i}"
-    if not os.path.exists(d):
-        subprocess.run(["rsync", "-a", "--exclude", ".git", "--exclude", "__pycache__", "--exclude", "*.pgc", "--exclude", "*.pgec", "/repo/", d + "/"], check=True)
+    subprocess.run(["rsync", "-a", "--delete", _master() + "/", d + "/"], check=True)
     return d
 
 
@@ -165,9 +174,8 @@ def _suite_one(args):
     _apply(d, m)
     t0 = time.time()
     try:
-        subprocess.run("find . -name '*.pgc' -delete; find . -name '*.pgec' -newer pyproject.toml -delete", shell=True, cwd=d)
         p = subprocess.run(
-            ["/venv/bin/python", "-m", "pytest", "-q", "-x", "-p", "no:cacheprovider", "--timeout=60",
+            ["/venv/bin/python", "-m", "pytest", "-q", "-x", "-p", "no:cacheprovider", "--timeout=30",
              "--deselect", "tests/func/pglr/test_pglr.py::test_pglr_check", "--deselect", "tests/func/pglr/test_pglr.py::test_pglr_viz"],
             cwd=d, env=dict(os.environ, PYTHONPATH=d, PYTHONDONTWRITEBYTECODE="1"), capture_output=True, text=True, timeout=600,
         )
@@ -176,19 +184,6 @@ def _suite_one(args):
         ok = p.returncode == 0 and mm is not None and int(mm.group(1)) == 264
     except subprocess.TimeoutExpired:
         ok = False
-    finally:
-        _restore(d, m)
-        subprocess.run("git -C /repo ls-files -m >/dev/null; true", shell=True)
-        for stray in ("examples/molecular_formulas/parser.out", "examples/molecular_formulas/parsetab.py"):
-            try:
-                os.remove(os.path.join(d, stray))
-            except OSError:
-                pass
-        # tests rewrite some tracked files (pinned tables / hint caches): restore them
-        for rel in ("tests/func/persistence/compare_table/model.pgc", "tests/func/parsing/error_reporting/custom_hints/expressions.pgec"):
-            src = os.path.join("/repo", rel)
-            if os.path.exists(src):
-                shutil.copy(src, os.path.join(d, rel))
     return k, ok, round(time.time() - t0, 1)
 
 
